@@ -18,7 +18,7 @@ PROPS = {
         "assumptions": ["disk model of DESIGN §5"],
     },
     "C04": {
-        "suites": ["crash", "wal"],
+        "suites": ["crash", "wal", "fault"],
         "partial": "what a completed truncation means (old/new FirstIndex/LastIndex, re-appended entries win, identically after reopen) is proved through the C05 refinement; atomicity and durability of a truncation interrupted at any crash point are decided by the crash suite's ghost-state monitor on the real code (exploration); BoltDB's atomic commit is assumed",
         "assumptions": ["atomic durable meta commit (BoltDB)", "disk model of DESIGN §5"],
     },
@@ -34,7 +34,7 @@ PROPS = {
         "assumptions": ["fsync(fd) makes earlier writes to the file durable; fsync(dirfd) makes earlier create/unlink/rename durable", "ptrace is permitted in the sandbox (the check reports itself unable to run otherwise)"],
     },
     "C08": {
-        "suites": ["wal", "crash"],
+        "suites": ["wal", "crash", "conc"],
         "partial": "the theorem covers every sequential interleaving of Set/Get/SetUint64/GetUint64 with log calls and clean reopens on the model; survival of acknowledged Sets across crashes is checked by the crash suite on simfs (where a Set is one atomic durable event — BoltDB's own crash atomicity is trusted, not modelled); concurrent Set/Get with log calls is exercised by the conc suite when present",
         "assumptions": ["BoltDB: a write transaction is atomic and durable when Commit returns; Get after Put returns the value"],
     },
